@@ -30,7 +30,7 @@ RULE = (
     "Non-trivial = (width != 2 or >= 2 channels) and >= 1 sample."
 )
 MUST_HIT = ["skip_between_samples", "empty_slice", "lazy_reader", "wav_sw1", "wav_sw4", "placeholder_name",
-            "exists_refused", "numpy_multichannel"]
+            "exists_refused", "numpy_multichannel", "to_file_byteslike"]
 ASSUMPTIONS = ["files are re-read with stdlib wave/open to judge the writer independently of the reader"]
 BOUNDS = {"quick": dict(n=500, maxN=200), "thorough": dict(n=6000, maxN=1500)}
 _ctr = [0]
@@ -72,7 +72,11 @@ def check_case(case, rec):
             with open(expected_name, "wb") as fp:
                 fp.write(b"SENTINEL")
         if writer == "to_file":
-            to_file(data, name_t, audio_format, sampling_rate=sr, sample_width=sw, channels=ch)
+            dk = case.get("data_kind", "bytes")  # to_file documents bytes-like input
+            payload = {"bytes": data, "bytearray": bytearray(data), "memoryview": memoryview(data)}[dk]
+            if dk != "bytes":
+                classes.add("to_file_byteslike")
+            to_file(payload, name_t, audio_format, sampling_rate=sr, sample_width=sw, channels=ch)
             ret = name_t
         else:
             arg = Path(name_t) if writer == "save_path" else name_t
@@ -206,7 +210,7 @@ def explicit_cases():
         dict(base, pre_existing=True, exists_ok=False),
         dict(base, writer="save_path", pre_existing=True, exists_ok=False, tmpl=None),
         dict(base, N=0, reader="load", skip=None, mr=None),
-        dict(base, fmt_how="explicit_wave", writer="to_file", reader="from_file_lazy"),
+        dict(base, fmt_how="explicit_wave", writer="to_file", reader="from_file_lazy", data_kind="memoryview"),
         dict(base, fmt="raw", fmt_how="noext", writer="save_str", reader="from_file_eager", tmpl=None, sw=2, ch=5),
     ]
 
@@ -232,6 +236,7 @@ def strategy(draw, maxN):
                 pre_existing=draw(st.booleans()) and draw(st.booleans()),
                 exists_ok=draw(st.booleans()),
                 path_obj=draw(st.booleans()),
+                data_kind=draw(st.sampled_from(["bytes", "bytes", "bytearray", "memoryview"])),
                 skip=draw(st.one_of(st.none(), st.tuples(st.integers(0, N + 4), st.sampled_from([0, 0.25, 0.75])).map(list))),
                 mr=draw(st.one_of(st.none(), st.tuples(st.integers(0, N + 4), st.sampled_from([0, 0.25, 0.75])).map(list))))
     return case
